@@ -13,9 +13,9 @@ Import ListNotations.
 Open Scope N_scope.
 
 Definition sres_is (r : sres bytes) (b : bytes) : bool := match r with SOk x => bytes_eqb x b | _ => false end.
-Definition answer (pt_ok : bytes -> bool) (maxvec ci co : N) (t : tx) (spent : list txout) (o : op) : bytes :=
-  let d := impl_digest pt_ok maxvec ci co sha256 htapsighash t o in
-  let m := impl_msg pt_ok maxvec ci co sha256 t o in
+Definition answer (pt_ok : bytes -> bool) (maxvec : N) (t : tx) (spent : list txout) (o : op) : bytes :=
+  let d := impl_digest pt_ok maxvec sha256 htapsighash t o in
+  let m := impl_msg pt_ok maxvec sha256 t o in
   let marker :=
     if negb (comparable o) then L "s?" else
     match spec_digest pt_ok sha256 htapsighash true t spent o with
@@ -40,7 +40,7 @@ Definition run (args : list bytes) : bytes :=
               | Some spent =>
                   match all_some (map (parse_op pt_ok maxvec cv spent genesis) (split_on x3b qs [])) with
                   | None => err "ops"
-                  | Some os => join (L ";") (map (answer pt_ok maxvec ci co t spent) os)
+                  | Some os => join (L ";") (map (answer pt_ok maxvec t spent) os)
                   end end end
       | _, _, _, _ => err "parse" end
   | _ => err "args" end.
